@@ -9,7 +9,9 @@
 //!           trailing junk, extra records) x {UDP, TCP};
 //!   short : every prefix of 0..11 octets of those messages;
 //!   trunc / mut: the truncation and mutation families of C01 (mixed-case
-//!           QNAMEs, EDNS, TSIG, every opcode) on servers without RRL.
+//!           QNAMEs, EDNS, TSIG, every opcode) on servers without RRL and, on
+//!           the std catalog, with RRL (slip 0 and slip 1; each request sent
+//!           twice to a fresh server).
 //! Oracle (closed formula from the statement, `refmodel::c03_check`): no
 //! response for < 12 octets, QR set, QDCOUNT > 1; otherwise a response has
 //! the request's ID and opcode, QR = 1, RD = request RD iff opcode QUERY,
@@ -167,6 +169,13 @@ pub fn run(ctx: Ctx) -> ! {
             slots.push(Slot::new(&world, &cat, cfg));
         }
     }
+    // ... and, on the std catalog, the two rate-limiting configurations (every
+    // request is sent twice to a fresh server; the second, limited response
+    // may be missing or slipped, which the formula allows: it prescribes what
+    // a response looks like and when there must be none).
+    for cfg in crate::common::all_cfgs().into_iter().filter(|c| c.rrl.is_some()) {
+        slots.push(Slot::new(&world, "std", cfg));
+    }
     drive::run_reqs(&ctx, &world, &slots, &trunc, false, verdict);
     drive::run_reqs(&ctx, &world, &slots, &muts, false, verdict);
     if !ctx.quick() {
@@ -180,4 +189,4 @@ pub fn run(ctx: Ctx) -> ! {
     ctx.finish("exploration", RULE, true)
 }
 
-const RULE: &str = "all 65536 flag words x 3 IDs x message bodies (QDCOUNT 0/1/2/65535, valid mixed-case / compressed / unparseable / absent question, with OPT, junk, records) x transports x 2 servers; every header prefix < 12 octets; every truncation and single mutation of every request template x RRL-free configurations x catalogs (thorough: x every truncation, mutation pairs); oracle: closed formula of the statement (ID, opcode, QR, RD only for QUERY, RA = 0, Z = 0, question echoed octet for octet, no response for QR / short / QDCOUNT > 1)";
+const RULE: &str = "all 65536 flag words x 3 IDs x message bodies (QDCOUNT 0/1/2/65535, valid mixed-case / compressed / unparseable / absent question, with OPT, junk, records) x transports x 2 servers; every header prefix < 12 octets; every truncation and single mutation of every request template x RRL-free configurations x catalogs (+ both rate-limiting configurations on the std catalog, each request sent twice) (thorough: x every truncation, mutation pairs); oracle: closed formula of the statement (ID, opcode, QR, RD only for QUERY, RA = 0, Z = 0, question echoed octet for octet, no response for QR / short / QDCOUNT > 1)";
